@@ -1,10 +1,18 @@
 //! Input generators.  Every choice derives from the one PRNG passed in.
 use crate::common::*;
 
-pub const FAMILIES: [&str; 16] = [
+pub const FAMILIES: [&str; 19] = [
     "uniform", "lattice", "allequal", "allzero", "duppoints", "negative", "sorted",
     "revsorted", "collinear", "pow2", "huge", "tiny", "neartie", "euclid", "signed", "staircase",
+    "negzero", "tiechain", "rowconst",
 ];
+
+/// sizes next to the powers of two at which word / block / narrow-integer shortcuts change behaviour
+pub const BOUNDARY_SIZES: [u64; 18] = [31, 32, 33, 63, 64, 65, 127, 128, 129, 131, 132, 135, 191, 192, 193, 255, 256, 257];
+pub fn boundary_size(rng: &mut Rng, cap: u64) -> u64 {
+    let ok: Vec<u64> = BOUNDARY_SIZES.iter().cloned().filter(|&b| b <= cap).collect();
+    if ok.is_empty() { cap } else { ok[rng.below(ok.len() as u64) as usize] }
+}
 
 fn len_of(n: usize) -> usize { n * n.saturating_sub(1) / 2 }
 
@@ -73,6 +81,27 @@ pub fn matrix_f64(rng: &mut Rng, n: usize, fam: &str, wide: bool) -> Vec<f64> {
         "tiny" => {
             let s = if wide { 1e-150 } else { 1e-15 };
             for _ in 0..len { v.push((rng.unit() * 0.9 + 0.1) * s); }
+        }
+        "negzero" => {
+            // negative zero next to positive zero and positive values (-0.0 >= 0.0, but its bit
+            // pattern is the largest of all non-NaN patterns below -0.0 .. : sorting by bits shows)
+            let k = rng.range(1, 3);
+            for _ in 0..len { v.push(match rng.below(k + 3) { 0 => -0.0, 1 => 0.0, x => (x - 1) as f64 * 0.5 }); }
+        }
+        "tiechain" => {
+            // a chain of near-ties: neighbours within ~1e-13 relative, far ends apart; everything
+            // else well separated (a tolerant, non-transitive comparison anywhere shows)
+            let eps = if wide { 2e-13 } else { 2e-7 };
+            let paired = rng.below(2) == 0;
+            for (i, j) in pairs(n) {
+                let link = if paired { i % 2 == 0 && j == i + 1 } else { j == i + 1 };
+                v.push(if link { 1.0 + (((37 * i) % 101) as f64) * eps } else { 5.0 });
+            }
+        }
+        "rowconst" => {
+            // d(i,j) = n - min(i,j): every row constant, the nearest-neighbour chain runs through
+            // all points and every link is chosen among exact ties
+            for (i, _j) in pairs(n) { v.push((n - i) as f64); }
         }
         "neartie" => {
             let base = [1.0, 0.7, 1.7, 2.1, 0.9, 3.3][rng.below(6) as usize];
